@@ -1,0 +1,11 @@
+//go:build verif
+
+package text
+
+// Contracts for the govc verifier (/verif). Comment-only; excluded from every
+// normal build by the tag above.
+
+//@ func (*Caser).Identifierize
+//@   props C14
+//@   option pure
+//@   assigns nothing
